@@ -174,6 +174,18 @@ def _all_strings(tier, seed):
         elif len(eds) > 500:
             eds = rng.sample(eds, 500)
         out += ["".join(e) for e in eds]
+    # calls the parser itself acts on (.module, .comment) with an expression where a literal is usual: parsing must still
+    # not evaluate anything (no variable changes, same parse twice, bounded work)
+    inner_alphabet = ["1", "a", "u", "::", "+", ":s", "{", "}", "(", ")", ";", '"m"', "f(", ":~", "x", "0"]
+    inners = [""] + ["".join(p) for n in (1, 2, 3) for p in itertools.product(inner_alphabet, repeat=n)]
+    inners += ["u::7", "n::n+1", "a::a,1", "{1}{x+1}:~0", "f(1)", "f::{x}", '"m",a', "a::{x}(2)", "{a::5}()", "{x}'[1 2]"]
+    if tier == "quick":
+        inners = [x for x in inners if rng.random() < 0.5 or len(x) <= 4]
+    for head in (".module(", ".comment("):
+        for inner in inners:
+            out.append(head + inner + ")")
+            if rng.random() < 0.2:
+                out.append("a::3;" + head + inner + ");f::{x+1};a")
     out += _long_strings()
     seen, res = set(), []
     for s in out:
